@@ -104,4 +104,44 @@ RWorse(x, y) ==
 RAlgoSurvivors(in, id) ==
     LET cand == { r \in RRan(in.rules) : RAlgoMatches(in.sets, r.labels) /\ RIdentity(r, RRan(in.rep)) = id }
     IN { <<r.st, r.ev>> : r \in { x \in cand : \A y \in cand : ~RWorse(x, y) } }
+(* ======================= phase 2: the whole request path ======================= *)
+(* GRPCClient.Rules over the real fan-out rules.Proxy: several rules servers (replicas), each of which *)
+(* may fail, a partial-response strategy, and the name / group / file filters next to match[].         *)
+(*   req  [rules : Seq(rule + src (index of the sending client) + sent (did it leave the client     *)
+(*         before that client failed?)), sets, rep, names, groups, files : Seq(string),               *)
+(*         strategy \in {"WARN","ABORT"}, clients : Seq([fail \in {"none","warn","open","mid"}])]       *)
+(*         "warn": the client sends a warning and all its rules; "open": the call fails; "mid": the   *)
+(*         stream fails after some groups                                                             *)
+(*   got  [err, warnings (count), rules : Seq(out rule)]                                              *)
+(* As in Prometheus the filter kinds compose by AND, the values of one kind by OR.                     *)
+RNameOK(req, r) == /\ (req.names = <<>> \/ r.name \in RRan(req.names))
+                   /\ (req.groups = <<>> \/ r.group \in RRan(req.groups))
+                   /\ (req.files = <<>> \/ r.file \in RRan(req.files))
+RHealthy(req, r) == req.clients[r.src].fail \in {"none", "warn"}
+RAnyFailed(req) == \E c \in DOMAIN req.clients : req.clients[c].fail \in {"open", "mid"}
+RAnyTrouble(req) == \E c \in DOMAIN req.clients : req.clients[c].fail # "none"
+(* must: rules of servers that answered completely; may: every rule that left its server *)
+RMust2(req) == { RIdentity(r, RRan(req.rep)) : r \in { x \in RRan(req.rules) :
+                    RHealthy(req, x) /\ RNameOK(req, x) /\ RSelBefore(req, x) /\ RSelAfter(req, x) } }
+RMay2(req)  == { RIdentity(r, RRan(req.rep)) : r \in { x \in RRan(req.rules) :
+                    x.sent /\ RNameOK(req, x) /\ (RSelBefore(req, x) \/ RSelAfter(req, x)) } }
+
+RViolations2(req, got) ==
+    IF got.err # ""
+      (* only the ABORT strategy may turn a failing rules server into a failed request *)
+      THEN (IF req.strategy = "ABORT" /\ RAnyFailed(req) THEN {} ELSE {"valid-request-answered"})
+    ELSE
+    LET ids == [k \in DOMAIN got.rules |-> ROutIdentity(got.rules[k])] IN
+    (IF req.strategy = "ABORT" /\ RAnyFailed(req) THEN {"abort-strategy-fails-on-store-error"} ELSE {})
+    \cup (IF RAnyTrouble(req) /\ got.warnings = 0 THEN {"partial-response-warned"} ELSE {})
+    \cup (IF RMust2(req) \subseteq RRan(ids) THEN {} ELSE {"rule-matching-some-set-returned"})
+    \cup (IF RRan(ids) \subseteq RMay2(req) THEN {} ELSE {"rule-matching-no-set-filtered-out"})
+    \cup (IF \A a, b \in DOMAIN ids : a # b => ids[a] # ids[b] THEN {} ELSE {"replicas-deduplicated-to-one"})
+
+(* algorithm level: what reaches the client (everything sent), kept by both filters, best replica wins *)
+RAlgoKept(req) == { r \in RRan(req.rules) : r.sent /\ RAlgoMatches(req.sets, r.labels) /\ RNameOK(req, r) }
+RAlgoIds2(req) == { RIdentity(r, RRan(req.rep)) : r \in RAlgoKept(req) }
+RAlgoSurvivors2(req, id) ==
+    LET cand == { r \in RAlgoKept(req) : RIdentity(r, RRan(req.rep)) = id }
+    IN { <<r.st, r.ev>> : r \in { x \in cand : \A y \in cand : ~RWorse(x, y) } }
 =============================================================================
